@@ -477,7 +477,7 @@ pub fn replay_file(path: &Path, worlds: &[World]) -> Result<(bool, String, Optio
 }
 
 fn write_replay(rec: &Value) -> PathBuf {
-    let dir = verif_root().join("replays");
+    let dir = std::env::var("VERIF_REPLAY_DIR").map(PathBuf::from).unwrap_or_else(|_| verif_root().join("replays"));
     let _ = std::fs::create_dir_all(&dir);
     let v = &rec["violation"];
     let key = format!(
